@@ -1,7 +1,7 @@
 \* every named rule at every feasible position of every base: witnesses (Violate_r / Use_u) and valid twins (Benign)
 SPECIFICATION Spec
 CONSTANTS
-  BaseIds = {"b01", "b02", "b07", "b08", "b15"}
+  BaseIds = {"b01", "b02", "b07", "b08", "b15", "b21", "b22", "b23", "b24", "b25", "b26", "b27", "b28", "b29", "b30", "b31", "b32"}
   PosSet = {"file", "block", "nested", "macro"}
   Mode = {"witness", "benign"}
   Forms = {}
